@@ -360,7 +360,10 @@ def tet_stream(seed, n, size="small", modifiers=True):
             v = np.array(v, float); t = orient_tets_positive(v, np.array(t, dtype=np.int64))
             if modifiers:
                 if rng.random() < 0.5:
-                    v = jitter(rng, v, 0.03); t = orient_tets_positive(v, t); tags.add("jitter")
+                    vj = jitter(rng, v, 0.03)
+                    e = vj[t[:, 1:]] - vj[t[:, :1]]
+                    if np.all(np.einsum("ij,ij->i", np.cross(e[:, 0], e[:, 1]), e[:, 2]) > 1e-3):   # stays a valid (non-inverted) mesh
+                        v = vj; tags.add("jitter")
                 if rng.random() < 0.5:
                     v = rigid(rng, v, reflect=False); tags.add("rigid")
                 if rng.random() < 0.4:
